@@ -215,7 +215,10 @@ static MessageRef BuildCommand(Ctx & c, int K, const std::string & code, const s
    return MessageRef();
 }
 
-static void ApplyToMirror(const W & w, ClientState & c, const Message & m, std::ostringstream & out)
+// net effect of the Messages of one op on one client: path -> last payload set, or "-" when last removed
+typedef std::map<std::string, std::string> NetMap;
+
+static void ApplyToMirror(const W & w, ClientState & c, const Message & m, std::ostringstream & out, NetMap & net)
 {
    out << "[R:";
    const String * s;
@@ -225,6 +228,7 @@ static void ApplyToMirror(const W & w, ClientState & c, const Message & m, std::
       if (i) out << ",";
       out << p;
       c.mirror.erase(p);
+      net[p] = "-";
    }
    out << ";S:";
    bool first = true;
@@ -239,6 +243,7 @@ static void ApplyToMirror(const W & w, ClientState & c, const Message & m, std::
          const std::string pv = Payload(v());
          out << p << "=" << pv;
          c.mirror[p] = pv;
+         net[p] = pv;
       }
    }
    out << "]";
@@ -284,6 +289,10 @@ static void RunCase(long k, const std::string & line)
    const size_t bar = line.find('|');
    if (bar == std::string::npos) return;
    std::vector<std::string> ops = Split(line.substr(bar+1), ';');
+   // label starting with 'x': print per client the NET EFFECT of the op's Messages (N{..}) instead of the Messages themselves:
+   // with several subscribers and small max-items the split points of a client's updates depend on the iteration order of the
+   // pooled subscriber tables (ImmutableHashtablePool cache), which the model does not reproduce; the net effect does not.
+   const bool netMode = (bar > 0)&&(line[0] == 'x');
    W w;
    Ctx c; c.w = &w; c.quietUsed = false;
    int j = -1;
@@ -328,19 +337,32 @@ static void RunCase(long k, const std::string & line)
       if (rounds >= 2000) {printf("%ld ORACLE FAIL no-quiescence op#%d\n", k, j);}
 
       std::ostringstream o;
-      o << j << " " << code << (valid ? "" : "!") << " M{";
+      o << j << " " << code << (valid ? "" : "!") << (netMode ? " N{" : " M{");
       bool firstc = true;
       for (size_t ci=0; ci<w.NumSessions(); ci++)
       {
          Client & cl = w.client(ci);
          std::ostringstream mo;
+         NetMap net;
          for (size_t mi=0; mi<cl.inbox.size(); mi++)
          {
             const Message * m = cl.inbox[mi]();
-            if ((m)&&(m->what == PR_RESULT_DATAITEMS)) ApplyToMirror(w, c.cs[ci], *m, mo);
+            if ((m)&&(m->what == PR_RESULT_DATAITEMS)) ApplyToMirror(w, c.cs[ci], *m, mo, net);
          }
          cl.inbox.clear();
-         if (!mo.str().empty()) {if (!firstc) o << " "; firstc = false; o << "c" << ci << ":" << mo.str();}
+         if (netMode)
+         {
+            if (!net.empty())
+            {
+               if (!firstc) o << " ";
+               firstc = false;
+               o << "c" << ci << ":{";
+               bool fn = true;
+               for (NetMap::const_iterator it = net.begin(); it != net.end(); ++it) {if (!fn) o << ","; fn = false; o << it->first << "=" << it->second;}
+               o << "}";
+            }
+         }
+         else if (!mo.str().empty()) {if (!firstc) o << " "; firstc = false; o << "c" << ci << ":" << mo.str();}
       }
       o << "}";
 
